@@ -79,6 +79,7 @@ def holds (rdns : List (List (Oid × Runes))) (impl : String) : String :=
 
 def handle (op : String) (args : List String) (impl : String) : Option (String × String) :=
   match op, args with
+  | "dncert", _ :: n :: rest   -- the same name as Subject and Issuer of a certificate: must be rendered exactly as by `dn`
   | "dn", _ :: n :: rest =>
     match n.toNat? with
     | some n => match parseRdns n rest with
